@@ -5,6 +5,7 @@ import (
 	"time"
 
 	"verifharness/core"
+	"verifharness/gen"
 	"verifharness/hist"
 	"verifharness/run"
 	"verifharness/sim"
@@ -25,7 +26,70 @@ type stopScn struct {
 }
 
 func stopHistory(c *core.Ctx, idx int) (*hist.History, []*hist.Table) {
+	if idx >= longHistBase {
+		return longHistory(c.Rng(core.StrID("stophist-long"), uint64(idx)), idx)
+	}
 	return smallHistory(c.Rng(core.StrID("stophist"), uint64(idx)), idx)
+}
+
+// Long histories (hundreds of events after the stop point): with the handler
+// blocked and the master far ahead, the library's reader has far more to hand
+// over than any plausible read-ahead buffer holds, so the "reader is holding
+// an event" states are reached however the hand-off is implemented.
+const longHistBase = 1000
+
+func longHistory(r *core.Rng, idx int) (*hist.History, []*hist.Table) {
+	cb := allCombos()[r.Intn(24)]
+	o := cb.hopts(r)
+	o.MaxCols = 3
+	o.MaxRows = 1
+	o.MaxStmts = 2
+	o.MaxEvents = 1
+	o.MaxTables = 2
+	o.NoJSON = true
+	rot := 0
+	if idx%2 == 1 {
+		rot, o.Switch = 1, 1
+	}
+	return gen.RandomHistory(r, o, 90+r.Intn(40), rot)
+}
+
+// longScenarios: the stop causes that matter when much is pending, at a few
+// transactions only (the enumeration over every index is done on the small
+// histories).
+func longScenarios(c *core.Ctx, hidx int, planLen, ntx int, reps int) []stopScn {
+	r := c.Rng(core.StrID("stopscn-long"), uint64(hidx))
+	var out []stopScn
+	add := func(f faultSpec) {
+		for rep := 0; rep < reps; rep++ {
+			out = append(out, stopScn{Hist: hidx, Spec: f, Rep: rep, Wrapped: true})
+		}
+	}
+	for _, j := range []int{0, 1, ntx / 3, ntx / 2} {
+		if j >= ntx {
+			continue
+		}
+		add(faultSpec{Kind: "cancel-blocked", At: j})
+		add(faultSpec{Kind: "cancel-late-packet", At: j})
+		add(faultSpec{Kind: "handler-err", At: j})
+		add(faultSpec{Kind: "handler-err", At: j, Slow: 300})
+		add(faultSpec{Kind: "cancel-handler", At: j})
+		add(faultSpec{Kind: "handler-err-cancel", At: j})
+		for _, k := range []string{"fin-blocked", "rst-blocked", "err-blocked", "eof-blocked"} {
+			f := faultSpec{Kind: k, At: j}
+			if k == "err-blocked" {
+				f.Code, f.Msg, f.State = uint16(1+r.Intn(65535)), randMsg(r), "HY000"
+			}
+			add(f)
+		}
+	}
+	for _, k := range []int{planLen / 2, planLen - 1, planLen} {
+		add(faultSpec{Kind: "cancel-idle", At: k})
+		add(faultSpec{Kind: "fin", At: k, Slow: 200})
+		add(faultSpec{Kind: "err", At: k, Slow: 200, Code: 1236, Msg: randMsg(r)})
+		add(faultSpec{Kind: "cancel-master", At: k, Slow: 200})
+	}
+	return out
 }
 
 var c05PacketKinds = []string{"fin", "rst", "err", "eof", "zerolen", "badseq", "short0", "cut", "inject-rowsquery", "inject-intvar", "inject-rand", "inject-invalid", "cancel-master"}
@@ -213,7 +277,7 @@ func runStop(c *core.Ctx, s *run.Session, l *hist.Layout, start hist.Pos, scn st
 			ob.Reader = s.ReaderState()
 			ob.Reached = true
 			s.Cancel()
-			s.M.Release() // late packets
+			s.M.Release()              // late packets
 			for i := 0; i < 400; i++ { // let the reader meet them
 				if st := s.ReaderState(); st != "network" {
 					break
@@ -352,8 +416,21 @@ func checkC05(c *core.Ctx) {
 			c05Run(c, scn, h, l, tables)
 		}
 	}
-	// coverage floor: both blocking states of the reader must have been seen
-	// (the orchestrator sums cells over shards; a shard only notes what it saw)
+	for k := 0; k < c.N(2, 8); k++ {
+		hidx := longHistBase + k
+		h, tables := stopHistory(c, hidx)
+		l := h.Build()
+		start := hist.Pos{File: h.FirstFile, Off: 4}
+		exp := hist.Expect(h, l, start)
+		for _, scn := range longScenarios(c, hidx, len(sim.Plan(l, start)), len(exp), reps) {
+			n++
+			if !c.Mine(n) {
+				continue
+			}
+			c.Cell("long-history-scenario")
+			c05Run(c, scn, h, l, tables)
+		}
+	}
 }
 
 func c05Run(c *core.Ctx, scn stopScn, h *hist.History, l *hist.Layout, tables []*hist.Table) {
@@ -390,6 +467,13 @@ func c05Run(c *core.Ctx, scn stopScn, h *hist.History, l *hist.Layout, tables []
 		c.Cell("cause:" + cls)
 		c.Cell(fmt.Sprintf("cell:%s/reader=%s/handler=%s", cls, ob.reader(), ob.Handler))
 		c.Cell("reader:" + ob.reader())
+		// implementation-independent views of the same observation (the
+		// coverage floor is stated on these: how the library hands events
+		// from its reader to the caller is its own business)
+		if rs := ob.reader(); rs == "holding" || rs == "running" {
+			c.Cell("reader-busy-at-stop")
+		}
+		c.Cell("handler-at-stop:" + ob.Handler)
 	} else {
 		c.Cell("not-reached:" + cls)
 	}
